@@ -40,6 +40,15 @@ def direct_sweep(ld, N):
                 for i in {0, k - 1, k // 2}:
                     if list(ds.shard(k, i)) != parts[i]:
                         fails.append((n, k, i, f'shard({k},{i}) != split({k})[{i}]'))
+                # the returned list belongs to the caller: whatever the caller does with it, later calls on the same dataset object
+                # still return the k shards
+                shards.reverse()
+                del shards[:1]
+                again = [list(x) for x in ds.split(k)]
+                if again != parts:
+                    fails.append((n, k, None, f'after the caller modified the list returned by split({k}), split({k}) on the same dataset returns {again if n < 12 else len(again)} instead of {parts if n < 12 else k} shards'))
+                elif list(ds.shard(k, k - 1)) != parts[k - 1]:
+                    fails.append((n, k, k - 1, f'after the caller modified the list returned by split({k}), shard({k},{k - 1}) changed'))
     return fails, count
 
 
